@@ -11,7 +11,7 @@ Property theorems only.  `lm : LogMath` is the model of a `logmath_t` with a tab
 
 * Generic theorems hold for **every** table with `TableOK` (fits the index range; non-increasing
   and dropping by at most one per step when read as `0` beyond its end).
-* For each configuration the code base instantiates (`cfgDec`, `cfgS8b`, `cfgTst`, `cfgW1`,
+* For each configuration the code base instantiates (`cfgDec`, `cfgS8b`, `cfgTst`, `cfgW1`, `cfgWb`,
   tables dumped from the running `logmath_init`) `TableOK` and the exact accuracy `AccAt` of every
   entry — and of the implicit `0` at every distance beyond the table — are established by kernel
   computation (`C19_tables_checked`).
@@ -72,8 +72,14 @@ theorem C19_logAdd_accurate {lm : LogMath} {P Q D : Nat} (hs : lm.table.size ≤
 element width are the ones the model computes, and every entry at every distance `d : ℕ` (inside
 and beyond the table) is accurate for the base `baseNum/baseDen` raised to `2^shift`, tolerance
 `2⁻²⁰`. -/
-theorem C19_tables_checked : cfgDec.Checked ∧ cfgS8b.Checked ∧ cfgTst.Checked ∧ cfgW1.Checked :=
-  ⟨checked_dec, checked_s8b, checked_tst, checked_w1⟩
+theorem C19_tables_checked :
+    cfgDec.Checked ∧ cfgS8b.Checked ∧ cfgTst.Checked ∧ cfgW1.Checked ∧ cfgWb.Checked :=
+  ⟨checked_dec, checked_s8b, checked_tst, checked_w1, checked_wb⟩
+
+/-- the width-boundary configuration is a real boundary case: its first entry is `256`, which
+does not fit the 1-byte element that `⌊log_b 2⌋ = 255` would suggest, and the width is 2 -/
+theorem C19_width_boundary : tval cfgWb.lm.table 0 = 256 ∧ cfgWb.width = 2 ∧ widthOf 255 = 1 := by
+  decide +kernel
 
 /-- **Everything together for a checked configuration** (in particular for the four of
 `C19_tables_checked`): for all log-probabilities above `zero` the result is symmetric, lies
